@@ -307,3 +307,107 @@ Qed.
 Theorem expected_x32_guard_is_model k ai d :
   interp_pinstrs k ai d [] [] expected_x32_guard = Some [IJmpIf JGe (k_x32mask k) 0 1; IRet (N.lor (k_errno k) (k_enosys k))].
 Proof. reflexivity. Qed.
+
+(** ** Policy.Validate, and the statements of Policy.Assemble in front of `program := make(...)`, as regenerated templates *)
+Inductive pvcond := PVDefaultUnnamed | PVNoGroups | PVOther (src:string).
+Inductive apstmt :=
+| APValidate        (* if err := p.Validate(); err != nil { return nil, err } *)
+| APResolveArch     (* if p.arch == nil { a, err := arch.GetInfo(""); if err != nil { return nil, err }; p.arch = a } *)
+| APDeclBody        (* var instructions []bpf.Instruction *)
+| APGroups          (* for _, group := range p.Syscalls { if group.arch == nil { group.arch = p.arch };
+                       groupInsts, err := group.assemble(); if err != nil { return nil, err };
+                       instructions = append(instructions, groupInsts...) } *)
+| APDeclX32         (* var x32Filter []bpf.Instruction *)
+| APGuardX32        (* if <x32_guard_condition> { x32Filter = <x32_guard> } : see the x32 guard theorem *)
+| APUnknown (src:string).
+
+Section Prefix.
+Variable le : bool.
+Variable k : consts.
+Variable ai : arch_info.
+
+(** [Some (Some e)]: the condition holds and error [e] is returned; [Some None]: it does not hold *)
+Definition pv_error (c:pvcond) (pol:policy) : option (option err) :=
+  match c with
+  | PVDefaultUnnamed => Some (if is_named k (p_default pol) then None else Some EDefaultAction)
+  | PVNoGroups => Some (match p_groups pol with [] => Some ENoSyscalls | _ => None end)
+  | PVOther _ => None
+  end.
+Fixpoint validate_by_template (tpl:list pvcond) (pol:policy) : option (option err) :=
+  match tpl with
+  | [] => Some None
+  | c :: r => match pv_error c pol with
+              | Some (Some e) => Some (Some e)
+              | Some None => validate_by_template r pol
+              | None => None
+              end
+  end.
+
+Record hstate := { hs_validated : bool; hs_body : option (list instr); hs_done : bool }.
+
+(** the value of `instructions` when `program := make(...)` is reached, or the error returned before *)
+Fixpoint head_by_template (vt:list pvcond) (pre:list apstmt) (pol:policy) (h:hstate) : option (res (list instr)) :=
+  match pre with
+  | [] => match hs_body h with Some b => if hs_done h then Some (Ok b) else None | None => None end
+  | s :: r =>
+    match s with
+    | APValidate => match validate_by_template vt pol with
+                    | Some (Some e) => Some (Error e)
+                    | Some None => head_by_template vt r pol {| hs_validated := true; hs_body := hs_body h; hs_done := hs_done h |}
+                    | None => None
+                    end
+    | APResolveArch | APDeclX32 | APGuardX32 => head_by_template vt r pol h
+    | APDeclBody => match hs_body h with
+                    | None => head_by_template vt r pol {| hs_validated := hs_validated h; hs_body := Some []; hs_done := false |}
+                    | Some _ => None
+                    end
+    | APGroups => if hs_validated h && negb (hs_done h) then
+                    match hs_body h with
+                    | Some [] => match compile_groups le k ai (p_groups pol) with
+                                 | Error e => Some (Error e)
+                                 | Ok b => head_by_template vt r pol {| hs_validated := true; hs_body := Some b; hs_done := true |}
+                                 end
+                    | _ => None
+                    end
+                  else None
+    | APUnknown _ => None
+    end
+  end.
+
+Definition compile_by_templates (vt:list pvcond) (pre:list apstmt) (layout:list ppiece) (pol:policy) : option (res (list instr)) :=
+  match head_by_template vt pre pol {| hs_validated := false; hs_body := None; hs_done := false |} with
+  | Some (Error e) => Some (Error e)
+  | Some (Ok body) => match interp_layout k ai (p_default pol) (x32_filter k ai) body 20 layout with
+                      | Some p => Some (Ok p)
+                      | None => None
+                      end
+  | None => None
+  end.
+End Prefix.
+
+Definition expected_policy_validate : list pvcond := [PVDefaultUnnamed; PVNoGroups].
+Definition expected_assemble_prefix : list apstmt := [APValidate; APResolveArch; APDeclBody; APGroups; APDeclX32; APGuardX32].
+
+(** Policy.Validate: an error exactly when the default action is not a named one or there is no group, in that order *)
+Theorem expected_validate_is_model k pol :
+  validate_by_template k expected_policy_validate pol =
+  Some (if negb (is_named k (p_default pol)) then Some EDefaultAction
+        else match p_groups pol with [] => Some ENoSyscalls | _ => None end).
+Proof.
+  unfold expected_policy_validate. cbn [validate_by_template pv_error].
+  destruct (is_named k (p_default pol)); cbn [negb]; [|reflexivity].
+  destruct (p_groups pol); reflexivity.
+Qed.
+
+(** the whole of Policy.Assemble, as the three expected templates render it, is the model's [compile] *)
+Theorem expected_templates_are_compile le k ai pol :
+  compile_by_templates le k ai expected_policy_validate expected_assemble_prefix expected_layout pol = Some (compile le k ai pol).
+Proof.
+  unfold compile_by_templates, expected_assemble_prefix. cbn [head_by_template].
+  rewrite expected_validate_is_model. unfold compile.
+  destruct (is_named k (p_default pol)); cbn [negb]; [|reflexivity].
+  destruct (p_groups pol) as [|g gs] eqn:G; [reflexivity|].
+  cbn [hs_body hs_validated hs_done andb negb].
+  destruct (compile_groups le k ai (g :: gs)) as [body|e]; [|reflexivity].
+  cbn [head_by_template hs_body hs_done]. rewrite expected_layout_is_compile. reflexivity.
+Qed.
